@@ -330,6 +330,7 @@ func h1Output(env *Env, c *H1Cfg, hr *h1Run, stats simrt.Stats, timedOut, allEnd
 		}
 	}
 	var prev *pl
+	var prevGap int64
 	for i := range lines {
 		l := &lines[i]
 		var endedPass, endedFail uint64
@@ -376,7 +377,12 @@ func h1Output(env *Env, c *H1Cfg, hr *h1Run, stats simrt.Stats, timedOut, allEnd
 				}
 				secs := float64(time.Duration(gap).Round(time.Second) / time.Second)
 				if prev == nil || !prev.structure {
-					if secs > 0 && gap%int64(time.Second) == 0 {
+					// the period a line reports on is the progress schedule's current one; it is known to be the gap
+					// to the previous line only in steady cadence (first line, or the same gap twice in a row): where
+					// f1 moves to a slower schedule (after one minute) the gap is longer than either period
+					steady := prev == nil || prevGap == 0 || gap == prevGap
+					prevGap = gap
+					if secs > 0 && gap%int64(time.Second) == 0 && steady {
 						want := uint64(math.Round(float64(l.s-prevS) / secs))
 						if rate != want && !(prev == nil && g.Cancelled) {
 							env.Violate("C19", "progress-rate-mismatch", "output/progress", "progress line states (%d/s) but the successful count grew by %d in the %.0fs since the previous line (%s)", rate, l.s-prevS, secs, truncate(l.text, 200))
